@@ -112,6 +112,95 @@ example :
         .selected 0 7 [("id".toList, "42".toList), ("file".toList, "report".toList)] := by
   decide
 
+/-! ### non-vacuity (audit): every hypothesis at once on a table with several candidates, both routers;
+    the predicate is not trivially true -/
+namespace C01Example
+
+/-- an oracle that evaluates `[0-9]+` faithfully (search / whole segment), anything else as "matches" -/
+def E1 : ReEnv :=
+  ⟨fun e s => if e = "[0-9]+".toList then s.any Char.isDigit else true,
+   fun e s => if e = "[0-9]+".toList then !s.isEmpty && s.all Char.isDigit else true⟩
+
+def rd (id : Nat) (m p : String) (cons prod : List String) (conds : List Nat) : RouteDecl :=
+  { id := id, method := m.toList, relPath := p.toList, consumes := cons.map String.toList,
+    produces := prod.map String.toList, conds := conds, noct := [] }
+
+/-- `/users`: GET `/{id:[0-9]+}`, GET `/me`, GET `/{name}` (If-condition 0), POST `/{id:[0-9]+}` consuming
+    JSON; `/orgs/{org}`: GET `/things` -/
+def services : List Service :=
+  [ { id := 0, root := "/users".toList, routes :=
+        [ rd 7 "GET" "/{id:[0-9]+}" [] ["application/json", "text/plain"] [],
+          rd 8 "GET" "/me" [] ["application/json"] [],
+          rd 9 "GET" "/{name}" [] ["text/plain"] [0],
+          rd 10 "POST" "/{id:[0-9]+}" ["application/json"] ["application/json"] [] ] },
+    { id := 1, root := "/orgs/{org}".toList, routes := [ rd 11 "GET" "/things" [] [] [] ] } ]
+
+def cfgC : Config := { router := .curly, services := services }
+def cfgJ : Config := { router := .jsr, services := services }
+
+/-- GET /users/42, Accept with two ranges, If-condition 0 true: routes 7 and 9 both admit the path -/
+def get42 : Req :=
+  { method := "GET".toList, path := "/users/42".toList, accept := "text/html, text/plain;q=0.5".toList,
+    conds := [true] }
+/-- POST /users/42 with a JSON body -/
+def post42 : Req :=
+  { method := "POST".toList, path := "/users/42".toList, contentType := "application/json".toList,
+    accept := "application/json".toList, clenHeader := "2".toList, contentLength := 2 }
+
+/-- the hypotheses of `C01_curly` hold, two routes of the dispatched service admit the URL (7, 9),
+    and a route function runs (the plain-variable route — same counts, greater path text; with its
+    condition false, the regex route) -/
+example :
+    cfgC.router = .curly ∧ cfgC.wfTemplates = true ∧
+    ((cfgC.services.flatMap Service.built).filter (fun rt => Spec.admitsRequest E1 .curly rt get42)).map (·.id) = [7, 9] ∧
+    route E1 cfgC get42 = .selected 0 9 [("name".toList, "42".toList)] ∧
+    route E1 cfgC { get42 with conds := [false] } = .selected 0 7 [("id".toList, "42".toList)] ∧
+    route E1 cfgC post42 = .selected 0 10 [("id".toList, "42".toList)] := by
+  decide
+
+/-- `C01_curly` on that instance -/
+example : Spec.c01Holds E1 cfgC get42 (route E1 cfgC get42) = true :=
+  C01_curly E1 cfgC (by decide) (by decide) get42
+
+/-- `C01_selected_is_declared` on that instance (its hypothesis `route … = .selected …` is met) -/
+example : ∃ svc ∈ cfgC.services, ∃ rt ∈ svc.built, svc.id = 0 ∧ rt.id = 9 ∧
+    rt.path = concatPath svc.rootPath rt.relPath :=
+  C01_selected_is_declared E1 cfgC (by decide) get42 0 9 [("name".toList, "42".toList)] (by decide)
+
+/-- the hypotheses of `C01_jsr` hold on the same services, and a route function runs -/
+example :
+    cfgJ.router = .jsr ∧ cfgJ.wfTemplates = true ∧
+    ((cfgJ.services.flatMap Service.built).filter (fun rt => Spec.admitsRequest E1 .jsr rt get42)).map (·.id) = [7, 9] ∧
+    route E1 cfgJ get42 = .selected 0 9 [("name".toList, "42".toList)] ∧
+    route E1 cfgJ post42 = .selected 0 10 [("id".toList, "42".toList)] := by
+  decide
+
+/-- `C01_jsr` on that instance -/
+example : Spec.c01Holds E1 cfgJ get42 (route E1 cfgJ get42) = true :=
+  C01_jsr E1 cfgJ (by decide) (by decide) get42
+
+/-- the predicate is not trivially true.  It is falsified by an observation that runs: the POST route
+    for a GET (method); the literal route `/me` for `/users/42` (literal segment); the regex route
+    for `/users/bob` (regex variable); the conditional route when its If-condition is false; the POST route
+    for an XML body (Content-Type not consumed); route 8 for an Accept it cannot satisfy; a route of
+    the other service (path); a route that does not exist.  Under either router. -/
+example :
+    Spec.c01Holds E1 cfgC get42 (.selected 0 10 [("id".toList, "42".toList)]) = false ∧
+    Spec.c01Holds E1 cfgC get42 (.selected 0 8 []) = false ∧
+    Spec.c01Holds E1 cfgC { get42 with path := "/users/bob".toList } (.selected 0 7 [("id".toList, "bob".toList)]) = false ∧
+    Spec.c01Holds E1 cfgC { get42 with conds := [false] } (.selected 0 9 [("name".toList, "42".toList)]) = false ∧
+    Spec.c01Holds E1 cfgC { post42 with contentType := "application/xml".toList }
+      (.selected 0 10 [("id".toList, "42".toList)]) = false ∧
+    Spec.c01Holds E1 cfgC { get42 with path := "/users/me".toList, accept := "text/html".toList } (.selected 0 8 []) = false ∧
+    Spec.c01Holds E1 cfgC get42 (.selected 1 11 [("org".toList, "42".toList)]) = false ∧
+    Spec.c01Holds E1 cfgC get42 (.selected 0 99 []) = false ∧
+    Spec.c01Holds E1 cfgJ get42 (.selected 0 10 [("id".toList, "42".toList)]) = false ∧
+    Spec.c01Holds E1 cfgJ get42 (.selected 0 8 []) = false ∧
+    Spec.c01Holds E1 cfgJ { get42 with path := "/users/bob".toList } (.selected 0 7 [("id".toList, "bob".toList)]) = false := by
+  decide
+
+end C01Example
+
 /-! The frame condition (Lemmas/StateShape.lean): the code has exactly the state this property's model
     accounts for — no further package-level variable, struct type or field; constants as modelled. -/
 -- also: Restful.StateShape.globals_shape
